@@ -72,6 +72,24 @@ PIN_FORMS = ["Box::pin", "std::boxed::Box::pin", "::std::boxed::Box::pin", "allo
              "Box::<_>::pin", "std::boxed::Box::<_>::pin"]
 
 
+# how the return type of a fn returning a boxed future is written (the attribute never looks at it: lib.rs instrument_precise)
+RET_FORMS = ["lit", "qlit", "alias", "aliasq", "alias2", "assoc"]
+
+
+def boxed_ret_text(form, inner_t):
+    if form == "qlit":
+        return "std::pin::Pin<std::boxed::Box<dyn std::future::Future<Output = %s> + 'a>>" % inner_t
+    if form == "alias":
+        return "BoxFut<'a, %s>" % inner_t                      # support.rs: a generic alias with a lifetime
+    if form == "aliasq":
+        return "super::support::BoxFut<'a, %s>" % inner_t
+    if form == "alias2":
+        return "LocalFut<'a, %s>" % inner_t                    # an alias of the alias, declared in the corpus file
+    if form == "assoc":
+        return "Self::Fut"                                     # an associated type of a trait impl (tower-style)
+    return "Pin<Box<dyn Future<Output = %s> + 'a>>" % inner_t
+
+
 def pin_segments(form):
     """the callee path's segment identifiers (no leading `::`, no generic arguments), as syn sees them"""
     return [x.split("<")[0] for x in form.lstrip(":").split("::") if x and not x.startswith("<")]
@@ -514,8 +532,10 @@ class Gen:
             tail, _ = self.shaped(shape, binds, live)
         attrs = self.attrs(kind, shape, binds)
         pin = self.force.get("pin", rng.choice(["Box::pin"] * 4 + PIN_FORMS[1:])) if kind in ("boxed", "oldtrait") else None
+        retform = self.force.get("retform", rng.choice(["lit"] * 3 + RET_FORMS[1:])) if kind in ("boxed", "oldtrait") else \
+            (self.force.get("retform", rng.choice(["lit", "lit", "qlit"])) if kind == "implfut" else None)
         return {"idx": self.idx, "kind": kind, "recv": recv, "groups": groups, "binds": binds, "ret": shape, "body": body, "tail": tail,
-                "attrs": attrs, "pin": pin}
+                "attrs": attrs, "pin": pin, "retform": retform}
 
 
 def _tup(x):
@@ -549,7 +569,8 @@ def from_spec(spec, idx):
             a[k] = {"level": a[k].get("level"), "mode": a[k].get("mode", "default")}
     return {"idx": idx, "kind": spec["kind"], "recv": recv, "groups": groups, "binds": binds, "ret": spec["ret"],
             "body": _tup(spec["body"]), "tail": _tup(spec["tail"]), "attrs": a, "why": spec.get("why", ""),
-            "pin": spec.get("pin", "Box::pin") if spec["kind"] in ("boxed", "oldtrait") else None}
+            "pin": spec.get("pin", "Box::pin") if spec["kind"] in ("boxed", "oldtrait") else None,
+            "retform": spec.get("retform", "lit") if spec["kind"] in ("boxed", "oldtrait", "implfut") else None}
 
 
 def build_corpus(n, seed, specs=()):
@@ -577,6 +598,12 @@ def build_generated(n, seed):
     for gk in GROUP_KINDS:
         forced.append({"groups": [gk, "val"], "kind": "sync"})
         forced.append({"groups": ["bool", gk], "kind": "async"})
+    # every spelling of the return type of a boxed-future fn, for both shapes, free functions and methods
+    for k, rf in enumerate(RET_FORMS[1:]):
+        forced.append({"kind": "boxed", "retform": rf, "recv": None})
+        forced.append({"kind": "boxed", "retform": rf, "recv": ["ref", "mut", "val"][k % 3], "ret": True})
+        forced.append({"kind": "oldtrait", "retform": rf, "recv": [None, "ref"][k % 2], "err": k % 2 == 0, "shape": "res_num_er"})
+    forced.append({"kind": "implfut", "retform": "qlit"})
     # every spelling of the pinning call, for the async-block and the inner-async-fn shapes
     for pf in PIN_FORMS[1:]:
         forced.append({"kind": "boxed", "pin": pf})
@@ -773,12 +800,31 @@ def fn_name(fn, twin):
     return "%s%s%d" % (twin, "m" if fn["recv"] else "", fn["idx"])
 
 
+def outer_params(fn):
+    """the parameters with plain names `aK: TYPE` (trait method declarations / the wrapper of the inner-async-fn shape)"""
+    out = []
+    if fn["recv"]:
+        out.append({"val": "self", "ref": "&'a self", "mut": "&'a mut self"}[fn["recv"]])
+    for k, g in enumerate(fn["groups"]):
+        out.append("a%d: %s" % (k, g["sig"].rsplit(": ", 1)[1]))
+    return out
+
+
+def is_assoc(fn):
+    return fn.get("retform") == "assoc"
+
+
 def render_fn(fn, twin, order_rng):
     kind = fn["kind"]
     shape = fn["ret"]
     gens = [g["generic"] for g in fn["groups"] if "generic" in g]
     need_lt = True
     generics = "<" + ", ".join(["'a"] + gens) + ">"
+    fgenerics = generics                      # generics of the annotated fn itself
+    vis = "pub "
+    if is_assoc(fn):                          # a method of `impl<'a> SvcN<'a> for R`: the lifetime belongs to the impl
+        fgenerics = ("<" + ", ".join(gens) + ">") if gens else ""
+        vis = ""
     params = []
     if fn["recv"]:
         params.append({"val": "self", "ref": "&'a self", "mut": "&'a mut self"}[fn["recv"]])
@@ -809,15 +855,25 @@ def render_fn(fn, twin, order_rng):
             outer.append("a%d: %s" % (k, g["sig"].rsplit(": ", 1)[1]))
             inner.append(g["sig"])
             call.append("a%d" % k)
-        return ("    %spub fn %s%s(%s) -> Pin<Box<dyn Future<Output = %s> + 'a>> {\n        async fn %s%s(%s) -> %s {\n%s        }\n"
+        return ("    %s%sfn %s%s(%s) -> %s {\n        async fn %s%s(%s) -> %s {\n%s        }\n"
                 "        %s(%s(%s))\n    }\n"
-                % (attr, name, generics, ", ".join(outer), inner_t, helper, generics, ", ".join(inner), inner_t, body, fn.get("pin") or "Box::pin",
-                   helper, ", ".join(call)))
+                % (attr, vis, name, fgenerics, ", ".join(outer), boxed_ret_text(fn.get("retform"), inner_t), helper, generics, ", ".join(inner), inner_t, body,
+                   fn.get("pin") or "Box::pin", helper, ", ".join(call)))
     if kind == "boxed":
-        return ("    %spub fn %s%s(%s) -> Pin<Box<dyn Future<Output = %s> + 'a>> {\n        %s(async move {\n%s        })\n    }\n"
-                % (attr, name, generics, ", ".join(params), inner_t, fn.get("pin") or "Box::pin", body))
-    return ("    %spub fn %s%s(%s) -> impl Future<Output = %s> + 'a {\n        async move {\n%s        }\n    }\n"
-            % (attr, name, generics, ", ".join(params), inner_t, body))
+        return ("    %s%sfn %s%s(%s) -> %s {\n        %s(async move {\n%s        })\n    }\n"
+                % (attr, vis, name, fgenerics, ", ".join(params), boxed_ret_text(fn.get("retform"), inner_t), fn.get("pin") or "Box::pin", body))
+    return ("    %spub fn %s%s(%s) -> impl %sFuture<Output = %s> + 'a {\n        async move {\n%s        }\n    }\n"
+            % (attr, name, generics, ", ".join(params), "std::future::" if fn.get("retform") == "qlit" else "", inner_t, body))
+
+
+def render_assoc(fn, order_rng):
+    """both twins as methods of a trait impl whose associated type is the boxed future (`fn f(..) -> Self::Fut`)"""
+    gens = [g["generic"] for g in fn["groups"] if "generic" in g]
+    fg = ("<" + ", ".join(gens) + ">") if gens else ""
+    inner_t = CONCRETE.get(fn["ret"], RUST_RET[fn["ret"]])
+    decl = "".join("    fn %s%s(%s) -> Self::Fut;\n" % (fn_name(fn, t), fg, ", ".join(outer_params(fn))) for t in "pi")
+    return ("pub trait Svc%d<'a> {\n    type Fut;\n%s}\nimpl<'a> Svc%d<'a> for R {\n    type Fut = Pin<Box<dyn Future<Output = %s> + 'a>>;\n%s%s}\n"
+            % (fn["idx"], decl, fn["idx"], inner_t, render_fn(fn, "p", order_rng), render_fn(fn, "i", order_rng)))
 
 
 def render_mk(fn):
@@ -836,6 +892,9 @@ def render_mk(fn):
     if fn["recv"]:
         callp = "R::%s(r0%s)" % (pn, "".join(", " + x for x in args))
         calli = "R::%s(r0%s)" % (iname, "".join(", " + x for x in args))
+    elif is_assoc(fn):
+        callp = "R::%s(%s)" % (pn, ", ".join(args))
+        calli = "R::%s(%s)" % (iname, ", ".join(args))
     else:
         callp = "%s(%s)" % (pn, ", ".join(args))
         calli = "%s(%s)" % (iname, ", ".join(args))
@@ -860,19 +919,24 @@ pub const STRS: [&str; 4] = ["s0", "s1", "s2", "s3"];
 fn wrap<T: Canon + 'static>(f: impl Future<Output = T> + 'static) -> Fut {
     Box::pin(async move { finish(f.await) })
 }
+/// an alias of an alias of the boxed-future type
+pub type LocalFut<'a, T> = BoxFut<'a, T>;
 """
 
 
 def render_corpus(fns, seed):
     order_rng = random.Random(seed * 7919 + 1)
-    free, methods, mks = [], [], []
+    free, methods, traits, mks = [], [], [], []
     for fn in fns:
-        for twin in ("p", "i"):
-            txt = render_fn(fn, twin, order_rng)
-            (methods if fn["recv"] else free).append(txt)
+        if is_assoc(fn):
+            traits.append(render_assoc(fn, order_rng))
+        else:
+            for twin in ("p", "i"):
+                txt = render_fn(fn, twin, order_rng)
+                (methods if fn["recv"] else free).append(txt)
         mks.append(render_mk(fn))
     out = [HEADER]
-    out.append("".join(free) + "impl R {\n" + "".join(methods) + "}\n")
+    out.append("".join(free) + "impl R {\n" + "".join(methods) + "}\n" + "".join(traits))
     out.append("".join(mks))
     out.append("pub fn mk(f: usize, t: char, a: &[u64]) -> Option<Call> {\n    Some(match f {\n" +
                "".join("        %d => mk%d(t, a),\n" % (fn["idx"], fn["idx"]) for fn in fns) + "        _ => return None,\n    })\n}\n")
@@ -946,8 +1010,10 @@ def c_func(fn):
     kind = {"sync": "KSync", "async": "KAsync", "boxed": "KBoxed", "implfut": "KBoxed", "oldtrait": "KHelper"}[fn["kind"]]
     if fn["kind"] in ("boxed", "oldtrait"):
         # the model decides from the callee as written whether the attribute sees "a fn returning a boxed future" at all
-        kind = "(kind_of_tail (match Gen_attr.gen_box_pin_suffix with Some s => s | None => EmptyString end) [%s] %s)" % (
-            "; ".join('"%s"%%string' % x for x in pin_segments(fn.get("pin") or "Box::pin")), kind)
+        inner_t = CONCRETE.get(fn["ret"], RUST_RET[fn["ret"]])
+        kind = "(kind_of_fn (match Gen_attr.gen_box_pin_suffix with Some s => s | None => EmptyString end) [%s] %s %s)" % (
+            "; ".join('"%s"%%string' % x for x in pin_segments(fn.get("pin") or "Box::pin")),
+            c_spell(spell_of(boxed_ret_text(fn.get("retform"), inner_t))), kind)
     return "(mkFunc %s [%s] %s %s)" % (kind, "; ".join(c_param(b) for b in fn["binds"]), c_stmt(fn["body"]), c_expr(fn["tail"]))
 
 
@@ -993,7 +1059,8 @@ def c_args(vals, cancel_site=None):
 def template_key(fn):
     a = fn["attrs"]
     return "%s/%s%s" % ({"sync": "sync", "oldtrait": "async-helper"}.get(fn["kind"], "async"), "ret" if a["ret"] else "", "err" if a["err"] else "") + \
-           ("" if a["ret"] or a["err"] else "plain") + ("" if (fn.get("pin") or "Box::pin") == "Box::pin" else "@" + fn["pin"])
+           ("" if a["ret"] or a["err"] else "plain") + ("" if (fn.get("pin") or "Box::pin") == "Box::pin" else "@" + fn["pin"]) + \
+           ("" if (fn.get("retform") or "lit") == "lit" else "->" + fn["retform"])
 
 
 def pattern_key(fn):
